@@ -253,6 +253,37 @@ Theorem out_of_range_modulus4 :
     mod_from_standard i j k l = None.
 Proof. exact out_of_range_modulus4_l. Qed.
 
+(** 7. strain spellings (finite domain, decided by evaluation): the integer spelling ij, the index pair (i, j) and
+       from_standard agree for i, j in 1..3; the Voigt integers 1..6 are from_voigt; all of them exist *)
+Definition strain_spellings_b : bool :=
+  forallb (fun i => forallb (fun j =>
+    option_eqb strain_eqb (strain_create [10 * i + j]) (strain_from_standard i j) &&
+    option_eqb strain_eqb (strain_create [i; j]) (strain_from_standard i j) &&
+    match strain_from_standard i j with Some _ => true | None => false end) [1; 2; 3]) [1; 2; 3] &&
+  forallb (fun v => option_eqb strain_eqb (strain_create [v]) (strain_from_voigt v) &&
+                    match strain_from_voigt v with Some _ => true | None => false end) [1; 2; 3; 4; 5; 6].
+Theorem strain_spellings_agree : strain_spellings_b = true.
+Proof. vm_compute. reflexivity. Qed.
+
+(** 8. the views and the classification are the documented ones, read off the Voigt pair (36 pairs) *)
+Definition std_of_voigt (v : Z) : Z * Z := match strain_from_voigt v with Some s => s | None => (0, 0) end.
+Definition views_b : bool :=
+  forallb (fun a => forallb (fun b =>
+    match mod_from_voigt a b with
+    | Some k =>
+        let lo := Z.min a b in let hi := Z.max a b in
+        let '(x, y) := mod_voigt k in let '(i, j, p, q) := mod_standard k in
+        (x =? lo) && (y =? hi) &&
+        (i =? fst (std_of_voigt lo)) && (j =? snd (std_of_voigt lo)) &&
+        (p =? fst (std_of_voigt hi)) && (q =? snd (std_of_voigt hi)) &&
+        Bool.eqb (is_shear k) (3 <? hi) &&
+        Bool.eqb (is_longitudinal k) ((hi <=? 3) && (lo =? hi)) &&
+        Bool.eqb (is_off_diagonal k) ((hi <=? 3) && negb (lo =? hi))
+    | None => false
+    end) [1; 2; 3; 4; 5; 6]) [1; 2; 3; 4; 5; 6].
+Theorem views_documented : views_b = true.
+Proof. vm_compute. reflexivity. Qed.
+
 Print Assumptions canon_iff_symmetry.
 Print Assumptions exactly_21_keys.
 Print Assumptions voigt_pairs_canonical.
@@ -263,3 +294,5 @@ Print Assumptions out_of_range_voigt.
 Print Assumptions out_of_range_standard.
 Print Assumptions out_of_range_modulus.
 Print Assumptions out_of_range_modulus4.
+Print Assumptions strain_spellings_agree.
+Print Assumptions views_documented.
